@@ -6,8 +6,15 @@
 using namespace vlog;
 static const int MAXT = 12;
 struct Eff { int kind = 0; int t = 0; long ds = 0; long iv = 1; };   // 0 none, 1 unplan, 2 plan
-static std::unique_ptr<igris::timer_manager> M;
-static std::unique_ptr<igris::timer<int>> T[MAXT + 1];
+// TM_SPEC32: the manager instantiated with a 64-bit clock and 32-bit intervals (timer_spec<int64_t, int32_t>) instead of the default spec
+#ifdef TM_SPEC32
+typedef igris::timer_spec<int64_t, int32_t> Spec;
+#else
+typedef igris::timer_spec<int64_t> Spec;
+#endif
+typedef igris::timer_manager_basic<Spec> Mgr; typedef igris::timer_basic<Spec, int> Tm;
+static std::unique_ptr<Mgr> M;
+static std::unique_ptr<Tm> T[MAXT + 1];
 static Eff eff[MAXT + 1];
 static int NT; static long now_; static std::vector<long long> fired;
 // the manager sees time BASE + t * 2^SC and intervals iv * 2^SC (scheduling is invariant under this map); events are logged in model units
@@ -33,8 +40,8 @@ int main(int argc, char **argv) {
     return run(argc, argv, [&](const std::vector<std::string> &t) {
         const std::string &op = t[0];
         if (op == "R") {
-            if (t[1] == "tm") { for (int i = 1; i <= MAXT; ++i) T[i].reset(); M.reset(new igris::timer_manager()); NT = num(t[2]); now_ = 0; SC = t.size() > 3 ? (int)num(t[3]) : 0; BASE = t.size() > 4 ? (long)num(t[4]) : 0;
-                for (int i = 1; i <= NT; ++i) { T[i].reset(new igris::timer<int>(igris::make_delegate(cb), (int)i)); T[i]->set_start(up(0)); T[i]->set_interval(upd(1)); eff[i] = Eff(); }
+            if (t[1] == "tm") { for (int i = 1; i <= MAXT; ++i) T[i].reset(); M.reset(new Mgr()); NT = num(t[2]); now_ = 0; SC = t.size() > 3 ? (int)num(t[3]) : 0; BASE = t.size() > 4 ? (long)num(t[4]) : 0;
+                for (int i = 1; i <= NT; ++i) { T[i].reset(new Tm(igris::make_delegate(cb), (int)i)); T[i]->set_start(up(0)); T[i]->set_interval(upd(1)); eff[i] = Eff(); }
                 Ev e("Reset"); e.str("kind", "tm").i("nt", NT).i("scale", SC).i("base_hi", (long)(BASE >> 31)).i("base_lo", (long)(BASE & 0x7fffffff)); observe(e, now_); e.end(); }
             else { stimer_init(&ST, 0, 1); Ev e("Reset"); e.str("kind", "st").i("nt", 1); e.end(); }
             return; }
